@@ -125,9 +125,16 @@ pub fn check(f: &Facts, stats: &mut Stats) -> CheckResult {
     let ks = kinds();
     let mut classes: BTreeSet<&'static str> = BTreeSet::new();
     let mut nontrivial = false;
-    for a in &m.ids {
+    // large graphs (the deep-chain sweep): a stride of the ordered pairs plus every pair that involves
+    // one of the three smallest / largest ids (the library's distance search is quadratic in the depth)
+    let big = m.len() > 150;
+    let n_ids = m.len();
+    for (ia, a) in m.ids.iter().enumerate() {
         let ta = ont.hpo(*a).unwrap();
-        for b in &m.ids {
+        for (ib, b) in m.ids.iter().enumerate() {
+            if big && (ia * 31 + ib * 17) % 251 != 0 && !(ia < 3 || ib < 3 || ia + 3 >= n_ids || ib + 3 >= n_ids) {
+                continue;
+            }
             let tb = ont.hpo(*b).unwrap();
             let rel = if a == b {
                 "pair:identical"
@@ -247,7 +254,7 @@ impl Property for C04 {
         }
     }
     fn required_labels(&self, _tier: Tier) -> Vec<&'static str> {
-        vec!["nontrivial", "obsolete-terms", "ancestors>30", "pair:identical", "pair:ancestor-descendant", "pair:siblings", "pair:cousins", "pair:no-common-ancestor", "both-annotated", "one-annotated", "none-annotated"]
+        vec!["nontrivial", "obsolete-terms", "ancestors>30", "pair:identical", "pair:ancestor-descendant", "pair:siblings", "pair:cousins", "pair:no-common-ancestor", "both-annotated", "one-annotated", "none-annotated", "records>32767", "depth>255"]
     }
     fn run_generated(&self, tier: Tier, seed: u64, n: u64, stats: &mut Stats) -> Option<(Value, Failure)> {
         let max = if tier == Tier::Quick { 12 } else { 20 };
@@ -261,6 +268,35 @@ impl Property for C04 {
         run_typed(proptest::strategy::Strategy::boxed(strategy), seed, n, stats, check)
     }
     fn replay(&self, case: &Value, stats: &mut Stats) -> Result<CheckResult, String> {
+        if let Some(b) = case.get("large") {
+            // tens of thousands of records per kind on seven terms (annotation sets whose sizes add up beyond 65 535)
+            let v: (u32, u32, u32) = serde_json::from_value(b.clone()).map_err(|e| e.to_string())?;
+            stats.cases += 1;
+            let r = check(&super::common::large_record_facts(v.0, v.1, v.2), stats);
+            if r.is_ok() {
+                stats.label("records>32767");
+            }
+            return Ok(r);
+        }
+        if let Some(b) = case.get("deep") {
+            // a plain is_a chain deeper than 255 links
+            let v: (u32, u32, u32) = serde_json::from_value(b.clone()).map_err(|e| e.to_string())?;
+            stats.cases += 1;
+            let r = check(&super::common::deep_chain_facts(v.0, v.1, v.2, 0), stats);
+            if r.is_ok() {
+                stats.label("depth>255");
+            }
+            return Ok(r);
+        }
         replay_typed::<Facts, _>(case, stats, check)
+    }
+    fn isolated_plans(&self, tier: Tier, seed: u64) -> Vec<Value> {
+        let vary = (seed % 499) as u32;
+        let mut out = vec![json!({"large": (50_000u32 + vary, 40_000u32, 33_000u32)}), json!({"deep": (280u32, 7919u32, 9u32)})];
+        if tier == Tier::Thorough {
+            out.push(json!({"large": (65_535u32, 65_535u32, 65_535u32)}));
+            out.push(json!({"deep": (700u32, 104_729u32, 20u32)}));
+        }
+        out
     }
 }
